@@ -126,6 +126,11 @@ class Alternative(ElseIf, ConclusionSelector):
     none of the branches are selected.
     """
 
+    def _can_use_cached_right_results_(self) -> bool:
+        # A cached result holds the bindings and the truth value only. When the right branch selects its conclusions
+        # while it is evaluated (it has refinements or alternatives of its own), they are not known for a cached result.
+        return not isinstance(self.right, ConclusionSelector)
+
     def _is_duplicate_output_(self, output: Dict[int, HashedValue]) -> bool:
         # For alternatives, avoid suppressing outputs based solely on variable values,
         # as different branches may yield different conclusions for the same bindings.
@@ -136,7 +141,9 @@ class Alternative(ElseIf, ConclusionSelector):
         outputs = super()._evaluate__(sources, yield_when_false=yield_when_false)
         for output in outputs:
             left_is_true = not self.left._is_false_
-            right_is_true = not self.right._is_false_
+            # when the left branch is false this operator is true iff the right branch is; the right branch's own flag
+            # is stale when the output was served from the result cache.
+            right_is_true = not self._is_false_
             if left_is_true:
                 self.update_conclusion(output, self.left._conclusion_)
             elif right_is_true:
